@@ -134,8 +134,9 @@ PROPS = {
         "mc": L0_QUICK,
         "drivers": [drv("failures", "debug"), drv("failures", "release")]
                    + [drv(d, "release", shards={"quick": 2, "thorough": 6}, env={"HARNESS_SAMPLE": "8"}) for d in
-                      ("addsub", "mul", "div", "bits", "text", "conv", "roots", "pow", "gcd", "forms", "bytes", "history", "sign")]
-                   + [drv("modpow", "release", shards={"quick": 6, "thorough": 14}, env={"HARNESS_SAMPLE": "2"})]
+                      ("addsub", "mul", "div", "bits", "text", "conv", "roots", "pow", "gcd", "forms", "bytes", "sign")]
+                   + [drv("modpow", "release", shards={"quick": 6, "thorough": 14}, env={"HARNESS_SAMPLE": "2"}),
+                      drv("history", "release", shards={"quick": 6, "thorough": 14}, env={"HARNESS_SAMPLE": "2"})]
                    + [drv(d, "debug", tiers=T, shards={"thorough": 6}, env={"HARNESS_SAMPLE": "3"}) for d in
                       ("addsub", "mul", "div", "bits", "text", "conv", "modpow", "roots", "pow", "gcd", "forms", "bytes", "history", "sign")],
         "owns_reasons": ("unexpected_panic", "missing_failure", "unexpected_none", "crash"),
@@ -147,7 +148,7 @@ PROPS = {
                     drv("addsub", "release", tiers=T, env={"HARNESS_GUARD": "start"}),
                     drv("text", "release", env={"HARNESS_GUARD": "end", "HARNESS_SAMPLE": "3"}),
                     drv("rand", "release", env={"HARNESS_GUARD": "end"}),
-                    drv("div", "release", env={"HARNESS_GUARD": "end", "HARNESS_SAMPLE": "4"}),
+                    drv("div", "release", env={"HARNESS_GUARD": "end"}),
                     drv("mul", "release", tiers=T, env={"HARNESS_GUARD": "end"}),
                     drv("bytes", "release", tiers=T, env={"HARNESS_GUARD": "end"})],
         "owns_reasons": ("crash", "srcmod"),
